@@ -88,18 +88,39 @@ func frameVariants() []frameVar {
 	return out
 }
 
-// args: role(server|client), k (number of valid messages first; -1 = completed and closing), variant index
+// stallProbes: SHIP-level messages a peer sends after it stopped reading (the local write pump is then stuck
+// inside a transport write until the write deadline)
+func stallProbes() []frameVar {
+	mk := func(n string, d []byte) frameVar { return frameVar{"stalled-peer," + n, fakews.Frame{Type: fakews.BinaryMessage, Data: d}} }
+	return []frameVar{mk("close-announce", shipx.CloseMsg("announce")), mk("close-confirm", shipx.CloseMsg("confirm")), mk("junk", []byte{1, 'x'}),
+		mk("bad-init", []byte{0, 1}), mk("hello-abort", shipx.Hello("aborted", -1, 0)), mk("prot-error", shipx.ProtError(2)), mk("data", shipx.Data(shipx.Datagram(1))),
+		{"stalled-peer,ws-close", fakews.Frame{Type: fakews.CloseMessage, Data: fakews.FormatCloseMessage(4001, "x")}}, {"stalled-peer,ws-text", fakews.Frame{Type: fakews.TextMessage, Data: []byte("xx")}}}
+}
+
+// args: role(server|client), k (number of valid messages first; -1 = completed and closing), variant index, [stall]
 func c08Run(args []string) (string, [][2]string) {
 	server := args[0] == "server"
 	k, _ := strconv.Atoi(args[1])
 	vi, _ := strconv.Atoi(args[2])
-	fv := frameVariants()[vi]
+	stall := len(args) > 3 && args[3] == "stall"
+	var fv frameVar
+	if stall {
+		fv = stallProbes()[vi]
+	} else {
+		fv = frameVariants()[vi]
+	}
 	var fails [][2]string
 	obs := ""
 	x := simrt.Run(simrt.Config{MaxSteps: 200000}, nil, func() {
 		simrt.ClearTraceHooks()
 		a, b := fakews.Pipe("local", "peer")
 		st := newStack("s", a, server, true, "")
+		// the send buffer fills with the next SHIP message the write pump sends (a close frame written into an
+		// empty buffer does not block)
+		stallNow := func() { a.StallWrites = func(f fakews.Frame) bool { return f.Type == fakews.BinaryMessage } }
+		if stall && k == 0 {
+			stallNow()
+		}
 		st.C.Run()
 		simrt.RunFor(5 * time.Millisecond)
 		msgs := cliMsgs
@@ -111,16 +132,26 @@ func c08Run(args []string) (string, [][2]string) {
 			n = len(msgs)
 		}
 		for i := 0; i < n && i < len(msgs); i++ {
+			if stall && k > 0 && i == n-1 {
+				stallNow() // the peer stops reading: the answer to this message gets stuck in the write pump
+			}
 			a.Inject(fakews.Frame{Type: fakews.BinaryMessage, Data: msgs[i]})
 			simrt.RunFor(5 * time.Millisecond)
 		}
 		if k < 0 {
+			if stall {
+				stallNow()
+			}
 			simrt.Go("user", func() { st.C.CloseConnection(true, 0, "bye") })
 			simrt.RunFor(5 * time.Millisecond)
 		}
 		stBefore, _ := st.C.ShipHandshakeState()
 		a.Inject(fv.f)
-		simrt.RunFor(3 * time.Second)
+		if stall {
+			simrt.RunFor(100 * time.Second) // beyond the write deadline and the pong wait
+		} else {
+			simrt.RunFor(3 * time.Second)
+		}
 		// a valid frame afterwards must still be processed or the connection be closed
 		stAfter, _ := st.C.ShipHandshakeState()
 		closed, _ := st.W.IsDataConnectionClosed()
@@ -162,6 +193,9 @@ func c08Main(r *hx.Run) {
 			for v := 0; v < nv; v++ {
 				tasks = append(tasks, []string{role, strconv.Itoa(k), strconv.Itoa(v)})
 			}
+			for v := range stallProbes() {
+				tasks = append(tasks, []string{role, strconv.Itoa(k), strconv.Itoa(v), "stall"})
+			}
 		}
 	}
 	if r.ReplayIn != "" {
@@ -191,7 +225,11 @@ func c08Main(r *hx.Run) {
 	for i, rs := range res {
 		distinct[rs.Obs] = true
 		if i%211 == 0 {
-			samples = append(samples, strings.Join(tasks[i], " ")+": "+frameVariants()[atoi(tasks[i][2])].name+" => "+rs.Obs)
+			if len(tasks[i]) == 3 {
+				samples = append(samples, strings.Join(tasks[i], " ")+": "+frameVariants()[atoi(tasks[i][2])].name+" => "+rs.Obs)
+			} else {
+				samples = append(samples, strings.Join(tasks[i], " ")+": "+stallProbes()[atoi(tasks[i][2])].name+" => "+rs.Obs)
+			}
 		}
 		for _, f := range rs.Fails {
 			p := strings.SplitN(f, "\x00", 2)
@@ -202,8 +240,8 @@ func c08Main(r *hx.Run) {
 		}
 	}
 	r.Finish(hx.Result{Level: "model_checking", Coverage: map[string]any{"states": len(tasks), "transitions": len(tasks), "traces_validated_against_impl": len(tasks),
-		"evaluations": len(tasks), "distinct_nontrivial": len(distinct), "frame_variants": nv,
-		"rule":    "websocket level: role x handshake state (after 0..n valid messages, and completed+closing) x frame variant (5 opcodes x 7 payload lengths x 2 contents, 7 close frames); each case is one execution of the real read pump + SHIP connection over the fake socket to a 3 s horizon",
+		"evaluations": len(tasks), "distinct_nontrivial": len(distinct), "frame_variants": nv, "stalled_peer_probes": len(stallProbes()),
+		"rule":    "websocket level: role x handshake state (after 0..n valid messages, and completed+closing) x frame variant (5 opcodes x 7 payload lengths x 2 contents, 7 close frames); each case is one execution of the real read pump + SHIP connection over the fake socket to a 3 s horizon; plus role x state x 9 SHIP / websocket messages sent by a peer that has stopped reading (the local write pump is stuck in a transport write until its write deadline), 100 s horizon",
 		"samples": samples, "exhaustive": true},
 		Assumptions: []string{"fakews hands every frame, whatever its opcode and length, to ReadMessage the way gorilla/websocket does (control frames handled inside, unknown opcodes are a read error)"},
 		Violations:  viol})
